@@ -104,11 +104,11 @@ Observable(a) ==
 SubSeqOf(leaves, P(_)) == SelectSeq(leaves, P)
 \* perm is a bijection on 1..Len(leaves); Permuted(leaves, perm)[i] = leaves[perm[i]]
 Permuted(leaves, perm) == [i \in 1..Len(leaves) |-> leaves[perm[i]]]
+\* (positions, not values: two equal leaves are still two clauses with their own responses)
 Admissible(leaves, perm) ==
-  LET q == Permuted(leaves, perm) IN
-  /\ \A m \in { leaves[i].m : i \in 1..Len(leaves) } :
-        SelectSeq(q, LAMBDA l : l.m = m) = SelectSeq(leaves, LAMBDA l : l.m = m)
-  /\ SelectSeq(q, LAMBDA l : l.form = "next") = SelectSeq(leaves, LAMBDA l : l.form = "next")
+  \A i, j \in 1..Len(leaves) :
+     (i < j /\ (leaves[perm[i]].m = leaves[perm[j]].m \/ (leaves[perm[i]].form = "next" /\ leaves[perm[j]].form = "next")))
+        => perm[i] < perm[j]
 Perms(n) == { f \in [1..n -> 1..n] : \A i, j \in 1..n : i # j => f[i] # f[j] }
 PermInvariant(leaves) ==
   \A perm \in Perms(Len(leaves)) :
